@@ -135,3 +135,65 @@ class FieldArrayVpush(Contract):
             return z3.And(z3.Not(refused), n1 == n0 + 1, e1[n0] == val.t, z3.ForAll([k], z3.Implies(z3.And(0 <= k, k < n0), e1[k] == e0[k])))
         return [Case("push", [fa, val, Opt(dt_none, dt_arg), "xx"], post, pre=[n0 >= 0, lid < h0["next_list"]], zh=h0, heap=heap, models=models,
                      symbols=dict(array_datatype=dt_self, given_datatype=dt_arg, no_datatype_given=dt_none, value_is_valid=valid), expect_paths=3)]
+
+
+@register
+class MultilineAdd(Contract):
+    fn = "gfapy/line/header/multiline.py::Multiline.add"
+    props = ("C01", "C08", "C18")
+    fragment = "H"
+    doc = ("header.add(tag, value, datatype): a tag not yet present is declared (when a datatype is given) and set; a second, different value of "
+           "a single-definition tag (VN, TS) is refused with InconsistencyError BEFORE anything is written, an equal one is ignored; any other "
+           "tag becomes (or stays) a field array to which the value is appended - through the validating _vpush at level >= 2, plainly below")
+
+    def cases(self, ctx):
+        g = ctx.gfapy
+        state, pst = enum("stored", ["absent", "scalar", "array"])
+        single, same_text = z3.Bool("tag_is_VN_or_TS"), z3.Bool("same_written_value")
+        dt_none = z3.Bool("no_datatype_given")
+        vl = z3.Int("vlevel")
+        tag, ptag = enum("tagname", ["VN", "xx"])
+        s = Obj(g.line.Header, "header")
+        prev_scalar, prev_array, newarr, val, dt = Obj(object, "stored_value"), Obj(g.FieldArray, "stored_array"), Obj(g.FieldArray, "new_array"), Obj(None, "value"), Obj(None, "datatype")
+        heap = {s.oid: {"vlevel": vl}, prev_scalar.oid: {}, prev_array.oid: {}, newarr.oid: {}, val.oid: {}, dt.oid: {}}
+        def evn(st, name):
+            return st.with_ghost("events", tuple(st.ghost.get("events", ())) + (name,))
+        def m_get(E, st, pos, kw):
+            yield ("val", None, [state == sv("absent")]); yield ("val", prev_scalar, [state == sv("scalar")]); yield ("val", prev_array, [state == sv("array")])
+        def mk(name, result=None):
+            def m(E, st, pos, kw):
+                yield ("val", result, [], evn(st, name))
+            return m
+        def m_field_to_s(E, st, pos, kw):
+            yield ("val", ite_str(same_text, "T", "U1"), [])
+        def m_to_gfa_field(E, st, pos, kw):
+            yield ("val", "T", [])
+        def m_fa_ctor(E, st, pos, kw):
+            ok = len(pos) == 2 and isinstance(pos[1], list) and len(pos[1]) == 1 and pos[1][0] is prev_scalar
+            yield ("val", newarr, [], evn(st, "new_array_of_stored_value" if ok else "new_array_wrong"))
+        def m_vpush(E, st, pos, kw):
+            yield ("val", None, [], evn(st, "vpush:" + ("new" if pos[0] is newarr else "stored")))
+        def m_append(E, st, pos, kw):
+            # prev.append(value): FieldArray forwards unknown attributes to its list (call-site model)
+            which = st.env.get("prev")
+            yield ("val", None, [], evn(st, "append:" + ("new" if which is newarr else "stored")))
+        f = ctx.fn
+        models = {f("gfapy/line/common/field_data.py::FieldData.get"): m_get, f("gfapy/line/common/field_datatype.py::FieldDatatype.set_datatype"): mk("declare"),
+                  f("gfapy/line/common/field_data.py::FieldData.set"): mk("set"), f("gfapy/line/header/multiline.py::Multiline.field_to_s"): m_field_to_s,
+                  g.Field._to_gfa_field: m_to_gfa_field, f("gfapy/line/common/field_datatype.py::FieldDatatype.get_datatype"): const_model(lambda *a: "i"),
+                  g.FieldArray: m_fa_ctor, f("gfapy/line/common/field_data.py::FieldData._set_existing_field"): mk("store_array"),
+                  f("gfapy/line/header/field_data.py::FieldData._set_existing_field"): mk("store_array"),
+                  f("gfapy/field_array.py::FieldArray._vpush"): m_vpush}
+        def post(kd, v, st):
+            e = tuple(st.ghost.get("events", ()))
+            is_single = tag == sv("VN")
+            if kd == "raise":
+                return z3.And(z3.BoolVal(v.cls is g.InconsistencyError and e == ()), state == sv("scalar"), is_single, z3.Not(same_text))
+            push = lambda which: ("vpush:" + which, "append:" + which)
+            def pushed(which, prefix):
+                return z3.If(vl > 1, z3.BoolVal(e == prefix + (push(which)[0],)), z3.BoolVal(e == prefix + (push(which)[1],)))
+            return z3.If(state == sv("absent"), z3.If(dt_none, z3.BoolVal(e == ("set",)), z3.BoolVal(e == ("declare", "set"))),
+                         z3.If(state == sv("array"), pushed("stored", ()),
+                               z3.If(is_single, z3.And(same_text, z3.BoolVal(e == ())), pushed("new", ("new_array_of_stored_value", "store_array")))))
+        return [Case("add", [s, tag, val, Opt(dt_none, dt)], post, pre=[pst, ptag, vl >= 0, vl <= 3], heap=heap, models=models, name_calls={"prev.append": m_append},
+                     symbols=dict(stored=state, tagname=tag, same_written_value=same_text, no_datatype_given=dt_none, vlevel=vl), expect_paths=5)]
